@@ -34,7 +34,8 @@ def meta_for(rnd, D, none_range=False, lo=0.0, hi=15.0):
         'amplification_type': [rnd.choice([[0.0, 0.0], [4.0, 1.0], [4.5, 0.5], None]) for _ in range(D)],
         'amplifier_gain': [rnd.choice([None, 1.0, 2.0, 8.0]) for _ in range(D)],
         'detector_voltage': [rnd.choice([None, 450.0]) for _ in range(D)],
-        'resolution': [16] * D,
+        # a different resolution per channel, so that a value taken from the wrong channel is visible
+        'resolution': (lambda r0: [[16, 32, 64, 128, 256][(r0 + j) % 5] for j in range(D)])(rnd.randrange(5)),
     }
 
 
